@@ -399,7 +399,22 @@ func c17Gen(t *rapid.T) C17Case {
 		c.Origin = "data-aware"
 		if rapid.Bool().Draw(t, "da-metric") {
 			d := datagen.GenMetricDataN(t, 30, false, true, false, 1, 4)
-			m := datagen.GenRange(t, d, datagen.RangeOpts{Grouping: true, KeepStage: true}, rapid.Bool().Draw(t, "da-unwrap"))
+			ropts, unwrap := datagen.RangeOpts{Grouping: true, KeepStage: true}, rapid.Bool().Draw(t, "da-unwrap")
+			oddParam := rapid.IntRange(0, 4).Draw(t, "da-quantile-parameter") == 0
+			if oddParam {
+				// a quantile whose parameter is at or beyond the ends of [0, 1], over series that
+				// hold several samples (one group for everything)
+				ropts.Funcs, unwrap = []string{"quantile_over_time"}, true
+			}
+			m := datagen.GenRange(t, d, ropts, unwrap)
+			if oddParam && m.Op == "quantile_over_time" {
+				q := rapid.SampledFrom([]struct {
+					text string
+					v    float64
+				}{{"0", 0}, {"1", 1}, {"1.5", 1.5}, {"2", 2}, {"10", 10}, {"1e300", 1e300}, {"1.0000001", 1.0000001}}).Draw(t, "da-q")
+				m.HasParam, m.Param, m.ParamText = true, q.v, q.text
+				m.Grouping = &gen.Grouping{Labels: rapid.SampledFrom([][]string{{}, {"app"}}).Draw(t, "da-q-by")}
+			}
 			top := datagen.GenVecAgg(t, d, m, rapid.IntRange(0, 2).Draw(t, "da-depth"))
 			c.Recs = d.Recs
 			c.Query = gen.BS(gen.PrintMetric(top, layout))
